@@ -263,6 +263,32 @@ func (w *World) forgeProofStep() bool {
 	return true
 }
 
+// callCancel: the context of one ValidateBlockConsensus call is cancelled from inside a consumer callback of that call
+// (at == 0: the committee lookup; at == k > 0: the k-th signature verification).
+type callCancel struct {
+	node   int
+	at     int
+	cancel context.CancelFunc
+	fired  bool
+}
+
+func (c *callCancel) lookup(node int) {
+	if c != nil && c.node == node && c.at == 0 && !c.fired {
+		c.fired = true
+		c.cancel()
+	}
+}
+
+func (c *callCancel) verify(node int) {
+	if c != nil && c.node == node && c.at > 0 && !c.fired {
+		c.at--
+		if c.at == 0 {
+			c.fired = true
+			c.cancel()
+		}
+	}
+}
+
 // kmHold: one consumer thread's ValidateBlockConsensus call is held inside its count-th signature verification (a slow
 // KeyManager), so that another consumer thread's call on the same instance runs start to finish in between.
 type kmHold struct {
@@ -365,6 +391,28 @@ func (w *World) judgeProof(victim *Node, offered interfaces.Block, raw []byte, h
 	}
 	var err error
 	panicked := false
+	// the caller's context: usually live for the whole call; in some calls it is cancelled (or its deadline passes)
+	// while the validator is inside a consumer callback - the committee lookup or the k-th signature verification -
+	// and the callback still answers (a consumer that ignores ctx). An error is then a fine answer, acceptance of an
+	// invalid certificate is not.
+	ctx := context.Background()
+	switch w.ch.Pick("call-ctx", 8) {
+	case 5:
+		c, cancel := context.WithCancel(ctx)
+		ctx = c
+		w.callCancel = &callCancel{node: victim.idx, at: 0, cancel: cancel}
+		name += "(ctx cancelled during committee lookup)"
+	case 6:
+		c, cancel := context.WithCancel(ctx)
+		ctx = c
+		w.callCancel = &callCancel{node: victim.idx, at: 1 + w.ch.Pick("call-ctx-at", 4), cancel: cancel}
+		name += "(ctx cancelled during a signature verification)"
+	case 7:
+		c, cancel := context.WithCancel(ctx)
+		cancel()
+		ctx = c
+		name += "(ctx cancelled before the call)"
+	}
 	func() {
 		defer func() {
 			if r := recover(); r != nil {
@@ -372,8 +420,17 @@ func (w *World) judgeProof(victim *Node, offered interfaces.Block, raw []byte, h
 				err = fmt.Errorf("panic: %v", r)
 			}
 		}()
-		err = victim.lh.ValidateBlockConsensus(context.Background(), offered, raw, prevB, prevP, soft)
+		err = victim.lh.ValidateBlockConsensus(ctx, offered, raw, prevB, prevP, soft)
 	}()
+	if c := w.callCancel; c != nil {
+		if c.fired {
+			w.probe("validate-call-ctx-cancelled-midway")
+			w.stats.Fault("caller-ctx-cancelled-during-validation")
+		}
+		c.cancel()
+		w.callCancel = nil
+		simWait() // goroutines the call may have left behind come to rest before the next step
+	}
 	func() {
 		defer func() {
 			if r := recover(); r != nil {
